@@ -37,6 +37,9 @@ def run(ctx):
     #    parent links, cleared slots; Get/Contains comparator calls <= 15 per level
     drive_tv(ctx, "tree", "Trace_Tree", "tv_Id40.cfg", "tree", variant="mix:40", runs=ctx.pick(12, 60), ops=ctx.pick(250, 500))
     drive_tv(ctx, "tree", "Trace_Tree", "tv_Id320.cfg", "tree", variant="mix:320", runs=ctx.pick(15, 150), ops=ctx.pick(500, 1200), timeout=3000)
+    # monotone fills of every size 100..315 (step <= 7, both directions) followed by a drain from the thin side and then
+    # the other: inner nodes at every fill grade (exactly full donors, minimal siblings) meet steal / merge / cascade
+    drive_tv(ctx, "tree", "Trace_Tree", "tv_Id320.cfg", "tree", variant="sweep:320", runs=ctx.pick(62, 124), ops=ctx.pick(80, 300), timeout=3000)
     drive_tv(ctx, "tree", "Trace_Tree", "tv_Coarse40.cfg", "tree", variant="coarse:40", runs=ctx.pick(5, 30), ops=ctx.pick(250, 500))
     if not ctx.quick():
         drive_tv(ctx, "tree", "Trace_Tree", "tv_Id1300.cfg", "tree", variant="mix:1300", runs=30, ops=4000, timeout=3000)
